@@ -282,6 +282,10 @@ def run(ctx):
             ctx.fail("a location override outlives its option (clone / after clearing it)", {"steps": steps},
                      [r3a.get("sent", {}).get("url"), r3c.get("sent", {}).get("url"), r3b.get("sent", {}).get("url")],
                      ["http://third.invalid/z", "declared endpoint", "declared endpoint"])
+        if "sent" not in r1 or "sent" not in r2:
+            ctx.fail("a selector expression over declared names does not reach a method that sends", {"steps": steps},
+                     [r1, r2], "a request")
+            continue
         r1["sent"]["url"] = r2["sent"]["url"] = None
         if r1 != r2:
             ctx.fail("location override changed more than the URL", {"steps": steps}, r2, r1)
